@@ -109,6 +109,7 @@ class Ledger(object):
         self.reruns = 0
         self.routes_seen = {}
         self.rerun_loose = False
+        self.seqno = 0
 
     # ------------------------------------------------------------------ contexts
     def new_write(self, var, value, src):
@@ -287,6 +288,8 @@ class Ledger(object):
                 c.barrier["offered"] = True
         x.ctx_offered = offered_vals
         x.delay = delay
+        self.seqno += 1
+        x.seq = self.seqno
         self.routes_seen.setdefault(task, set()).add(route)
         self.execs.append(x)
         t = self.p["tasks"][task]
@@ -440,7 +443,8 @@ class Ledger(object):
             self.unhandled.append(x.xid)
 
     def _cmd_exec(self, x, cmd, out):
-        self.cmd_execs.append({"cmd": cmd, "parent": x.xid, "ref": out, "order": len(self.execs) + len(self.cmd_execs)})
+        self.seqno += 1
+        self.cmd_execs.append({"cmd": cmd, "parent": x.xid, "ref": out, "order": self.seqno})
 
     def _arrive(self, join, x, tr, out):
         key = (join, x.route)
@@ -535,6 +539,14 @@ class Ledger(object):
                 continue
             if x is None:
                 continue
+            if reqs is None and x.remediated and x.state == "done":
+                # precise signature: the failure of this execution was handled (a transition was
+                # satisfied, its successors are staged or ran); it is flagged terminal only because
+                # its completion was reported after the workflow had already failed elsewhere
+                self.report("C17", "only_requested", "default rerun selected %s although its failure was handled by a "
+                            "transition (successors %r stay due and will run again after the re-execution)"
+                            % (x.key(), [d for _, do in x.fired for d in do]), tags=["rerun_default_remediated"],
+                            kf="KF-rerun-default-selects-remediated-task")
             if reqs is None and rec.get("status") not in ("failed", "timeout", "abandoned"):
                 self.report("C17", "only_requested", "default rerun selected %s whose status is %r (not failed)"
                             % (x.key(), rec.get("status")))
@@ -555,7 +567,7 @@ class Ledger(object):
             got = sorted(x.key() for x in sel_execs)
             if exp != got:
                 kf, tags = None, []
-                if set(exp) < set(got):
+                if len(keep) != len(want) or len(want) > 1:
                     # precise signature: requests that are downstream of another request were not
                     # collapsed (get_task_sequence only collects direct successors, and the
                     # collapse keeps a request whose own successors are not in the other's list)
@@ -613,7 +625,7 @@ class Ledger(object):
             if x.state == "done" and not any(
                     [tgt for tgt in do if tgt in self.p["tasks"] or tgt in ("continue", "noop", "fail")]
                     for _, do in x.fired):
-                out.append((x.xid, x.ref))
+                out.append((getattr(x, "seq", x.xid), x.ref))
         for c in self.cmd_execs:
             out.append((c["order"], c["ref"]))
         out.sort(key=lambda e: e[0])
